@@ -32,8 +32,9 @@ def closedSt (pre : List Handle) (pos : Nat) (started dropped : Bool) : RS :=
 
 theorem construct_name_ok (pre : List Handle) : construct .name true pre = .ok (openSt pre 0 false) := rfl
 
-theorem construct_name_fail (pre : List Handle) : construct .name false pre = .error (pre ++ [hClosed]) := by
-  simp [construct, modifyAt_append_length, Handle.fresh, Handle.close, hClosed]
+theorem construct_name_fail (pre : List Handle) :
+    construct .name false pre = .error (pre ++ [⟨.stream, false, 2, false⟩]) := by
+  simp [construct, modifyAt_append_length, Handle.fresh, Handle.close]
 
 theorem wrClose_openSt_dead (pre : List Handle) (pos : Nat) (st : Bool) :
     wrClose { openSt pre pos st with started := true, dead := true } = closedSt pre pos true false := by
